@@ -2,7 +2,8 @@
     consistent.  Statements only; proofs in Proofs/TypedGeneric.v. *)
 From SF Require Import Model.Bytes Model.F64 Model.ShapeType Model.Shapes Model.Res Model.Encode
   Model.Prog Model.Decode Model.Reader Model.Convert.
-From SF Require Import Proofs.ShapeTypeProofs Proofs.ProgLemmas Proofs.TypedGeneric.
+From SF Require Import Spec.Esri Spec.Denote.
+From SF Require Import Proofs.ShapeTypeProofs Proofs.ProgLemmas Proofs.TypedGeneric Proofs.RecordL1 Proofs.ReaderSeq Proofs.TypedIteration.
 Open Scope Z_scope.
 
 (** On any source in any state (any bytes, faults, short data): whenever the
@@ -56,3 +57,27 @@ Example C06_example :
   convert_all TPoint [p; SNull; q] = Err (EMismatch TPoint TNull) /\ try_from TMultipointM q = Ok q /\
   try_from TMultipointZ q = Err (EMismatch TMultipointZ TMultipointM).
 Proof. repeat split. Qed.
+
+(** At the level of whole files: reading a conformant record stream (records of
+    any types in any mixture, null records included) without index with the
+    typed reader of type t yields the records of type t up to the first record
+    of another type, for which it yields the mismatch error naming t and that
+    record's type, and then ends ([typed_items])... *)
+Theorem C06_typed_iteration : forall (t : shape_type) (rs : list (Z * ref_rec)) (st : rstate) (s : src) (rest : bytes),
+  r_index st = None -> clean s -> r_cur st = s_pos s ->
+  flen_bytes st = r_cur st + zlen (ref_records_bytes rs) -> flen_bytes st < two64 ->
+  Forall (record_ok None) rs -> s_rest s = ref_records_bytes rs ++ rest ->
+  exists st' s', run (it_pull (S (S (length rs))) (Some t) st) s = (Ok (typed_items t rs, true, st'), s').
+Proof. exact it_pull_typed_noindex. Qed.
+Print Assumptions C06_typed_iteration.
+
+(** ...which is the generic result converted record by record and cut after
+    the first error; hence the bulk typed read (`read_as::<T>`, collecting until
+    the first error) is the bulk generic read followed by the bulk conversion. *)
+Theorem C06_typed_is_generic_converted : forall (t : shape_type) (rs : list (Z * ref_rec)),
+  Forall (fun nr => rec_conformant (snd nr)) rs ->
+  typed_items t rs = cut_after_error (map (fun nr => try_from t (denote (snd nr))) rs) /\
+  collect_res (typed_items t rs) = convert_all t (map (fun nr => denote (snd nr)) rs).
+Proof. intros t rs H. split; [exact (typed_items_convert t rs H)|exact (typed_bulk_is_generic_bulk_converted t rs H)]. Qed.
+Print Assumptions C06_typed_is_generic_converted.
+
